@@ -82,6 +82,11 @@ func (reconfStream) Generate(rng *rand.Rand, tier string, emit func(Case)) {
 		{[][]reconfOpt{{{Auto: &fa}}}, 0},
 		{[][]reconfOpt{{{Dirs: []string{"P1"}}}, {{Auto: &fa}}, {{Dirs: []string{"P2", "P1"}}}}, 0},
 		{[][]reconfOpt{{{Dirs: []string{"P1"}}}, {{Dirs: []string{"P2", "P1"}}}, {{Auto: &tr}}}, 1},
+		// watcher closed, then set up again during a shortage for a directory that appears only later
+		{[][]reconfOpt{{{Auto: &fa}}, {{Dirs: []string{"P3missing"}}, {Auto: &tr}}}, 1},
+		{[][]reconfOpt{{{Auto: &fa}}, {{Dirs: []string{"P3missing", "P1"}}, {Auto: &tr}}}, 1},
+		{[][]reconfOpt{{{Dirs: []string{"P3missing"}}}}, -1},
+		{[][]reconfOpt{{{Dirs: []string{"P3missing"}}, {Auto: &fa}}}, -1},
 	} {
 		hj, _ := json.Marshal(fx.h)
 		var hm []any
@@ -329,6 +334,33 @@ func (reconfStream) Execute(c Case) {
 		_ = cache.Refresh()
 		dropped = hasDevice(cache, "probe.com/dropped=p")
 		obs["autoactive"], obs["reactstodropped"], obs["hasexisting"] = active, dropped, existing != ""
+		// a configured directory that did not exist is created afterwards, with a Spec: automatic mode
+		// must pick it up by itself (watch added or rescan at the next queries), manual mode at Refresh
+		late, lateSeen := false, false
+		for _, d := range abs {
+			if _, err := os.Stat(d); err != nil {
+				late = true
+				_ = os.MkdirAll(d, 0o755)
+				writeProbeSpec(d, "late")
+			}
+		}
+		if late {
+			if !finalAuto {
+				_ = cache.Refresh()
+			}
+			deadline := time.Now().Add(6 * time.Second)
+			for time.Now().Before(deadline) {
+				if hasDevice(cache, "probe.com/late=p") {
+					lateSeen = true
+					break
+				}
+				if !finalAuto {
+					break
+				}
+				time.Sleep(20 * time.Millisecond)
+			}
+		}
+		obs["late"], obs["lateseen"] = late, lateSeen
 		// release everything: nothing may be left behind
 		_ = cache.Configure(cdi.WithAutoRefresh(false))
 		_ = fresh.Configure(cdi.WithAutoRefresh(false))
